@@ -2,6 +2,7 @@ package c04
 
 import (
 	"fmt"
+	"regexp"
 	"strconv"
 	"strings"
 
@@ -474,6 +475,8 @@ func findLimitTmpl(name string) *limitTmpl {
 	return nil
 }
 
+var limitErrRe = regexp.MustCompile(`(?i)too many|overflow|limit|memory|too large|too long|too big`)
+
 const (
 	limitCPU = 20_000_000_000
 	limitMem = 1_500_000_000
@@ -501,8 +504,12 @@ func execLimit(c Case) Outcome {
 		o.Class, o.Msg = "compile-error", clip(tr.CompileErr, 300)
 	case tr.Err != "":
 		o.Class, o.Msg = "error", clip(tr.Err, 300)
-		// none of the templates can raise when executed correctly
-		o.Wrong = "run-time error " + clip(tr.Err, 200) + " from a program that cannot raise; expected " + clip(want, 100)
+		// none of the templates can raise when executed correctly; an error that
+		// reports a limit ("too many ...", "stack overflow") is an ordinary
+		// way of refusing the program, anything else is wrong code
+		if !limitErrRe.MatchString(tr.Err) {
+			o.Wrong = "run-time error " + clip(tr.Err, 200) + " from a program that cannot raise; expected " + clip(want, 100)
+		}
 	default:
 		o.Class, o.Rets = "value", clip(tr.Rets, 300)
 		if tr.Rets != want {
